@@ -138,6 +138,9 @@ func (node *Node) processUnconfirmedTx(ctx context.Context, tx handlers.TxData) 
 			if _, err := node.txs.Remove(ctx, *hash, -1); err != nil {
 				return errors.Wrap(err, "Failed to remove from tx repo")
 			}
+			// Only txs that were judged not relevant stay in the mempool without being in the
+			// unconfirmed set. Block processing skips those.
+			node.memPool.RemoveTransaction(*hash)
 			return nil
 		}
 
